@@ -93,6 +93,7 @@ func GenShardScript(t *rapid.T, unhealthyPct int, label string) ShardSpec {
 	if !pct(t, unhealthyPct, label+"-unhealthy") {
 		return s
 	}
+	s.Status2Fail = rapid.IntRange(0, 2).Draw(t, label+"-status2") == 0
 	switch rapid.IntRange(0, 8).Draw(t, label+"-kind") {
 	case 0:
 		s.Ready = false
